@@ -186,6 +186,13 @@ class CallMixin:
 
     def module_call(self, ma: ModAttr, args, kwargs, node):
         key = "%s.%s" % (ma.mod, ma.attr)
+        if key == "binascii.unhexlify" and len(args) == 1 and isinstance(args[0], V) and args[0].ty == TStr:
+            # hex string CONSTANT -> the bytes it denotes (used for module-level constants such as the initial salts)
+            for text, c in sym._str_consts.items():
+                if c.eq(args[0].t):
+                    import binascii
+
+                    return sym.bytes_const(binascii.unhexlify(text))
         c = self.registry.contracts.get(key)
         if c is not None:
             return self.apply_stub(c, key, args, kwargs, node)
@@ -246,6 +253,11 @@ class CallMixin:
             ty = self.param_type(p, module, contract)
             v = loc.get(p.arg)
             if ty is not None and isinstance(v, (V, EmptyLiteral)):
+                if isinstance(v, V) and isinstance(v.ty, TOpt) and not isinstance(ty, TOpt) and ty != TAny and not self.spec:
+                    # an Optional value passed where the callee's contract is stated for a present value: None would make
+                    # the callee fail in a way its contract does not describe - treated as an implicit TypeError site
+                    self.fail(z3.Not(sym.opt_is_none(v)), "TypeError", "None passed for parameter %s" % p.arg, None)
+                    v = sym.opt_val(v)
                 try:
                     loc[p.arg] = self.materialize(v, ty) if isinstance(v, EmptyLiteral) else sym.coerce(v, ty)
                 except Unsupported:
